@@ -17,7 +17,7 @@ TECH = {
  "C06": ("runtime monitoring: drive run/drain/status/run loops with really executed job scripts and seeded execution orders; oracle = completed-after-drain, no-op re-run, exact downstream closure after a perturbation", "Held on the adversary's execution orders and perturbations actually produced (counts in evidence), for three simulated schedulers and the real local pool."),
  "C07": ("runtime monitoring: dependency argument checked against each scheduler's grammar and the expected id set; ordering/never-start oracle over the simulator's start/end journal under an adversarial scheduler", "Held = syntactically exact prerequisite arguments and, under every adversarial execution produced, no job started before its prerequisites ended (never after a failed one on Slurm/LSF/local)."),
  "C08": ("runtime monitoring: every documented state code of each scheduler swept through simulated queues with conflicting foreign jobs; truth = what the simulator answered in that invocation", "Held = the shown state was the class my table (from the man pages) assigns to the code the scheduler answered for the target's own latest id; precedence, accounting switch, batching and the real pool checked."),
- "C09": ("runtime monitoring + fault enumeration: k-th scheduler command x failure kind, hard kills between submissions and before every state-file operation; oracle over journal and state files", "Held = after each enumerated fault the next invocations started normally, duplicated nothing that was still pending and completed the plan with the right prerequisites (one recorded known finding for ids of the killed run itself)."),
+ "C09": ("runtime monitoring + fault enumeration: k-th scheduler command x failure kind, hard kills between submissions, before/inside/after every state-file operation, and SIGKILL or KeyboardInterrupt at sampled statement boundaries of gwf's own code (sys.monitoring LINE failpoint); oracle over journal and state files", "Held = after each enumerated fault the next invocations started normally, duplicated nothing that was still pending and completed the plan with the right prerequisites (two recorded known findings: the single in-flight job id of a run killed / interrupted before it could store that id)."),
  "C10": ("runtime monitoring: scripts handed to the simulated schedulers are parsed by independent directive readers AND executed with bash; compared with a reference execution of the bare spec", "Held = directives equalled the independently resolved options and executing the script behaved exactly like the spec run with bash -e in the working directory (hostile directory names), logs landed where `gwf logs` reads them, log cleaning was safe."),
  "C11": ("runtime monitoring: invariant hook at every process spawn of the real Scheduler on a virtual-time event loop; adversary-chosen event orders", "Held on the distinct interleavings counted in the evidence: every spawn saw all dependencies COMPLETED with exit 0; tasks behind failed/cancelled dependencies never started."),
  "C12": ("runtime monitoring: live-process count at every spawn and quiescent point, work-conservation invariant; real-process interval overlap", "Held = never more live processes than cores and no idle core next to a ready task, on the interleavings observed."),
